@@ -51,6 +51,23 @@ fn main() {
                 other => harness_error(&format!("replay: engine {:?} is not served by this binary", other)),
             }
         },
+        "digest" => {
+            // event-log digest of a batch (no evidence, no violation handling): determinism test
+            let id = args.positional.get(0).map(|s| s.as_str()).unwrap_or("");
+            let runs: u64 = args.positional.get(1).and_then(|s| s.parse().ok()).unwrap_or(1000);
+            let spec = verifsim::driver::BatchSpec {
+                prop: id.to_string(),
+                part: if id == "C04" { "seq".to_string() } else { "seam".to_string() },
+                tier: "quick".to_string(),
+                batch_seed: verifsim::driver::batch_seed_from_env(),
+                runs,
+                workers: verifsim::driver::default_workers(),
+                exe: exe.clone(),
+            };
+            let res = verifsim::driver::run_batch(&spec);
+            println!("{:016x} runs={} violations={}", res.out.digest, res.out.runs, res.out.violations.len());
+            0
+        },
         "show" => {
             let id = args.positional.get(0).map(|s| s.as_str()).unwrap_or("");
             let idx: u64 = args.positional.get(1).and_then(|s| s.parse().ok()).unwrap_or(0);
